@@ -18,7 +18,11 @@ PROPS = {
     "C13": {"level": "proof", "lemma_files": ["contracts/path_laws.py"], "conformance": ["str"]},
     "C14": {"level": "proof", "lemma_files": ENGINE, "conformance": []},
     "C15": {"level": "proof", "lemma_files": ["contracts/event_laws.py"], "conformance": [], "static": ["contracts.static_lock.lock_discipline"]},
+    "C16": {"level": "exploration", "lemma_files": [], "conformance": [], "bounded": ["contracts.bounded_providers.run"],
+            "explanation": "bounded: provider operation sequences against a reference tree, hash law per size class, identity check"},
     "C17": {"level": "proof", "lemma_files": ENGINE, "conformance": []},
     "C18": {"level": "proof", "lemma_files": ENGINE, "conformance": []},
+    "C19": {"level": "exploration", "lemma_files": [], "conformance": [], "bounded": ["contracts.bounded_cache.run"],
+            "explanation": "bounded: cache operation sequences, coherence invariant after every call"},
     "C20": {"level": "proof", "lemma_files": ["contracts/smart_laws.py"], "conformance": []},
 }
